@@ -929,6 +929,17 @@ func (ev *cenv) call(e *CExpr) *Val {
 			sub := *ev
 			sub.heap = E.snaps[n]
 			return sub.eval(args[0])
+		case "isfunc":
+			// isfunc(x, pkg.Name): the function value x is exactly the named top-level function
+			x := ev.eval(args[0])
+			if isMissing(x) {
+				return ev.unknownBool()
+			}
+			want := args[1].String()
+			if x.Fn != nil && (x.Fn.Key == want || strings.HasSuffix(x.Fn.Key, "/"+want) || shortKey(x.Fn.Key) == want) {
+				return boolVal("true")
+			}
+			return boolVal("false")
 		case "athead":
 			// athead(e): e evaluated with the locals and the heap as they were at the head of the
 			// current iteration of the loop whose `each` clause is being checked
